@@ -127,7 +127,7 @@ def calc_sir(acc_sig):
 
 def _raw_calc_arias_intensity(acc, dt):
     from scipy.integrate import cumulative_trapezoid
-    return np.pi / (2 * 9.81) * cumulative_trapezoid(acc ** 2, dx=dt, initial=0)
+    return np.pi / (2 * 9.81) * cumulative_trapezoid(np.asarray(acc, dtype=float) ** 2, dx=dt, initial=0)
 
 
 def calc_arias_intensity(acc_sig):
